@@ -290,7 +290,10 @@ func (c *context) SendMsg(m *protocol.Message) error {
 	// It is responsible for providing the blocking semantic and
 	// ultimately back-pressure.  Note that we will "continue" if
 	// sending is canceled by a subsequent send.
-	for c.sendMsg == m && !expired && !c.closed && !(c.failNoPeers && len(s.pipes) == 0) {
+	// If we are no longer queued while the message is still ours, the
+	// request was canceled (a Recv on this context gave up on it), which
+	// also stopped our timer: nothing would ever wake us again.
+	for c.sendMsg == m && c.queued && !expired && !c.closed && !(c.failNoPeers && len(s.pipes) == 0) {
 		c.cond.Wait()
 	}
 	if c.sendMsg == m {
@@ -302,6 +305,9 @@ func (c *context) SendMsg(m *protocol.Message) error {
 		}
 		if c.failNoPeers && len(s.pipes) == 0 {
 			return protocol.ErrNoPeers
+		}
+		if !expired {
+			return protocol.ErrCanceled
 		}
 		return protocol.ErrSendTimeout
 	}
